@@ -25,6 +25,13 @@ repairs and as the reproduction of the recorded finding.
                       goroutine is held before Server.Clear, its timer expires and starts a second reset; the first one
                       completes, a second caller reserves and is dispatched to a new runtime, then the leftover reset
                       completes and releases the second caller's reservation: empty "success" for caller 2.
+  late-release        F-C10-4 (fixed 462e73b): the caller of Server.Reset is held after it received the completion message of
+                      a timeout reset; a second caller reserves and is dispatched; as found the held caller then called
+                      Release once more and dropped the second caller's reservation (empty success for caller 2).
+  dispatch-held       (regression for seeded change C04-c) doInvoke is held right before it installs the renderer of the
+                      invocation, with the polls of the runtime and of two INVOKE subscribers parked: nobody may be
+                      released before the renderer of *this* invocation is in place (else a subscriber renders the previous
+                      invocation's event again, or gets 500 on the first one).
 """
 from scen import Scn
 
@@ -154,10 +161,61 @@ def double_reset(sid, timeout_ms=400):
     return s.done()
 
 
+def late_release(sid, timeout_ms=400):
+    s = Scn(sid, ext=[], timeout_ms=timeout_ms, opWaitMs=8000)
+    s.meta(family=FAMILY, schedule="late-release")
+    s.init()
+    s.await_exec(kind="rt")
+    tags = {"rt": s.poll("rt")}
+    s.round(tags, {})
+    s.hold("server.resetBeforeRelease", 1)
+    it = s.invoke(caller=1, size=5, seed=7)
+    s.wait(tags["rt"])
+    s.until_held("server.resetBeforeRelease")
+    m = s.mark()
+    it2 = s.invoke(caller=2, size=6, seed=8)
+    s.await_exec(kind="rt", since=m)
+    t = s.call("rt", "next", async_=True)
+    s.wait(t)
+    s.release("server.resetBeforeRelease")
+    s.sleep(50)
+    s.call("rt", "response", id="current", body="answer-2")
+    tags["rt"] = s.poll("rt")
+    s.wait(it2)
+    s.wait(it)
+    s.round(tags, {})
+    return s.done()
+
+
+def dispatch_held(sid, timeout_ms=2000):
+    subs = {"e1": ["INVOKE"], "e2": ["INVOKE", "SHUTDOWN"]}
+    internal = {"i1": ["INVOKE"]}
+    s = Scn(sid, ext=["e1", "e2"], timeout_ms=timeout_ms, opWaitMs=8000)
+    s.meta(family=FAMILY, schedule="dispatch-held")
+    tags = s.boot(subs, internal)
+    listeners = ["ext:e1", "ext:e2", "int:i1"]
+    for k in range(3):
+        s.hold("invoke.beforeSetRenderer", 1)
+        it = s.invoke(size=5 + k, seed=70 + k)
+        s.until_held("invoke.beforeSetRenderer", n=k + 1)
+        s.sleep(40)
+        s.release("invoke.beforeSetRenderer")
+        s.wait(tags["rt"])
+        for w in listeners:
+            s.wait(tags[w])
+        s.call("rt", "response", id="current", body="held-%d" % k)
+        for w in ["rt"] + listeners:
+            tags[w] = s.poll(w)
+        s.wait(it)
+    return s.done()
+
+
 def scenarios(prefix, which=("watch-late-cancel", "clear-vs-invoke", "ghost-invoke")):
     out = []
     mk = {"watch-late-cancel": watch_late_cancel, "clear-vs-invoke": clear_vs_invoke, "ghost-invoke": ghost_invoke,
           "double-reset": double_reset,
+          "late-release": late_release,
+          "dispatch-held": dispatch_held,
           "stale-error-in-flight": lambda sid: stale_in_flight(sid, "error"),
           "stale-response-in-flight": lambda sid: stale_in_flight(sid, "response")}
     for i, w in enumerate(which):
